@@ -279,3 +279,41 @@ Print Assumptions cond_expand_selects_first_true_clause.
 Theorem module_table_total : forall es n, exists v, w_find_module (table es) n = Ok v.
 Proof. exact table_total. Qed.
 Print Assumptions module_table_total.
+
+(* round 5: the export set of an (export-all) library = env-exports of its environment (eval.c sexp_env_exports_op) *)
+From ChibiV Require Import C14.ExportAll C14.ExportAllProofs.
+
+Theorem export_all_exports_exactly_the_definitions : forall imps forms n,
+  In n (env_exports [] (eval_body imps forms)) <-> In n (defined_names forms).
+Proof. exact ExportAllProofs.export_all_exports_exactly_the_definitions. Qed.
+Print Assumptions export_all_exports_exactly_the_definitions.
+
+Theorem dangling_reference_not_exported : forall imps forms n,
+  In n (referenced_names forms) -> ~ In n (defined_names forms) -> ~ In n (env_exports [] (eval_body imps forms)).
+Proof. exact ExportAllProofs.dangling_reference_not_exported. Qed.
+Print Assumptions dangling_reference_not_exported.
+
+Theorem imported_name_not_reexported : forall imps forms n,
+  In n imps -> ~ In n (defined_names forms) -> ~ In n (env_exports [] (eval_body imps forms)).
+Proof. exact ExportAllProofs.imported_name_not_reexported. Qed.
+Print Assumptions imported_name_not_reexported.
+
+Theorem export_all_import_reaches_only_definitions : forall W i n m imps forms,
+  lookup_lib W (lib_of i) = Some (export_all_exports imps forms) -> denotes W i n m -> In m (defined_names forms).
+Proof. exact ExportAllProofs.export_all_import_reaches_only_definitions. Qed.
+Print Assumptions export_all_import_reaches_only_definitions.
+
+Theorem unfiltered_env_exports_lists_dangling_reference_refuted :
+  ~ (forall imps forms n, In n (env_exports_unfiltered [] (eval_body imps forms)) -> In n (defined_names forms)).
+Proof. exact ExportAllProofs.unfiltered_env_exports_lists_dangling_reference_refuted. Qed.
+Print Assumptions unfiltered_env_exports_lists_dangling_reference_refuted.
+
+From ChibiV Require Import C14.ExportAllEnv.
+Theorem export_all_import_shadows_only_definitions : forall W i l to from immutp imps forms n,
+  lookup_lib W (lib_of i) = Some (export_all_exports imps forms) ->
+  denote W i = Some l -> unambiguous W i -> to <> nil ->
+  (forall m, In m (defined_names forms) -> env_cell from m <> None) ->
+  (forall m, In m (defined_names forms) -> ~ denotes W i n m) ->
+  env_cell (env_import to from (Some l) immutp) n = env_cell to n.
+Proof. exact export_all_import_shadows_only_definitions_proof. Qed.
+Print Assumptions export_all_import_shadows_only_definitions.
